@@ -6,7 +6,6 @@ import (
 	"fmt"
 	"math/big"
 
-	"github.com/Oneledger/protocol/action"
 	onsact "github.com/Oneledger/protocol/action/ons"
 	"github.com/Oneledger/protocol/data/ons"
 
@@ -199,8 +198,6 @@ func onsDeleteSub(c *Ctx, who *world.Account, name, note string) hist.TxSpec {
 	sp.Meta = map[string]string{"name": name, "owner": who.Addr.String()}
 	return sp
 }
-
-var _ action.Msg = &onsact.DomainCreate{}
 
 // ---- the directed part ----------------------------------------------------
 
